@@ -1,4 +1,4 @@
-CONSTANTS Check = {"C09", "C11", "C18"}
+CONSTANTS Check = {"C09", "C11", "C18", "C12"}
 SPECIFICATION TSpec
 POSTCONDITION Accepted
 CHECK_DEADLOCK FALSE
